@@ -36,6 +36,35 @@ def corr(gen, mode, **spec):
     return (gen, mode, spec)
 
 
+import struct
+
+
+def guard_c08(a, g, m, go, text):
+    """string(x) is compared only when x (the guarding numeric case) is finite and |x| < 10^6"""
+    gid = [x[6:] for x in a[7:] if x.startswith('guard=')]
+    if not gid:
+        return True
+    v = go.get(gid[0], '')
+    if not v.startswith('F:') or v == 'F:nan':
+        return False
+    try:
+        x = struct.unpack('>d', bytes.fromhex(v[2:18]))[0]
+    except Exception:
+        return False
+    return abs(x) < 1e6
+
+
+def percase_expect(a, g):
+    for x in a[7:]:
+        if x == 'expect=err' and not g.startswith('E:compile'):
+            return 'a damaged expression was accepted by Compile'
+        if x == 'expect=ok' and g != 'ok':
+            return 'a valid expression of the generator was rejected (generator or engine changed)'
+    return None
+
+
+CRASHY = ['E:crash', 'E:budget', 'E:contract', 'E:compile-panicked', 'X:', 'E:protocol', 'E:eval-select-differ']
+
 PROPS = {
     'NAV': dict(corr=[corr('NAV', 'exact')], note='navigator contract: harness navigator = Doc.v'),
     'C01': dict(corr=[corr('NAV', 'exact'), corr('C01', 'set')]),
@@ -44,6 +73,15 @@ PROPS = {
     'C11': dict(corr=[corr('C11', 'multiset')]),
     'C12': dict(corr=[corr('C12', 'exact', forbid=['E:protocol', 'E:eval-select-differ'])]),
     'C13': dict(corr=[corr('C13', 'set')]),
+    'C04': dict(corr=[corr('C04', 'set', forbid=['E:history'])]),
+    'C06': dict(corr=[corr('C06', 'exact', forbid=['E:contract', 'E:compile-panicked'])]),
+    'C07': dict(corr=[corr('C07', 'set', forbid=['E:crash', 'E:complaint'])]),
+    'C08': dict(corr=[corr('C08', 'exact', guard=guard_c08)]),
+    'C09': dict(corr=[corr('C09', 'exact', forbid=['E:crash'])]),
+    'C10': dict(corr=[corr('C10', 'exact')]),
+    'C14': dict(corr=[corr('C14', 'set')]),
+    'C15': dict(corr=[corr('C15', 'class', forbid=['E:crash', 'E:budget', 'X:', 'I:', 'Z:'])]),
+    'C17': dict(corr=[corr('C17', 'exact', percase=percase_expect)]),
 }
 
 # ---------------------------------------------------------------- known findings
